@@ -8,5 +8,4 @@ def run(ctx):
                         "keys, IVs, nonces, AAD and plaintext contents are drawn from the seed"]
 
 def replay(ctx, rp):
-    vlib.log("replay: the file holds the concrete input; re-run ./check C08")
-    return 2
+    return vlib.replay_any(ctx, rp)
